@@ -53,9 +53,8 @@ Definition Known_lossy_noncanonical (s : str) : Prop :=
   exists p, lossy_paragraph_from_str s = Ok p /\ canon_para p = false.
 Definition Known_dep3_empty {E : Type} (v : list (option (uval E))) : Prop := present_keys E fs_dep3 v = [].
 
-(* the shape every stability statement has *)
-Definition stable {V : Type} (parse : str -> tres V) (print : V -> option str) (v : V) : Prop :=
-  exists t v', print v = Some t /\ parse t = TOk v' /\ v' = v /\ print v' = print v.
+(* the shape every stability statement has (proofs/TypedSpecP.v):
+     stable parse print v := exists t v', print v = Some t /\ parse t = TOk v' /\ v' = v /\ print v' = print v *)
 
 (* THE FULL STATEMENT of the stability clause: every kind, every text, no class excluded.  It is
    FALSE of the code as it is (C20_full_refuted); what is proved is the same statement outside the
@@ -73,9 +72,6 @@ Definition C20_full : Prop :=
   (forall s v, parse_dep3 E ext_parse s = TOk v -> stable (parse_dep3 E ext_parse) (print_dep3 E ext_print) v) /\
   (forall s v, parse_repositories E ext_parse s = TOk v -> stable (parse_repositories E ext_parse) (print_repositories E ext_print) v).
 
-Lemma stable_intro {V} (parse : str -> tres V) (print : V -> option str) v :
-  (exists t, print v = Some t /\ parse t = TOk v) -> stable parse print v.
-Proof. intros (t & H1 & H2). exists t, v. auto. Qed.
 
 (* ================================================================== 0. the generated tables *)
 (* every struct: distinct valid keys, every codec pair stable (or the guarded Files pair); the
@@ -547,9 +543,6 @@ Definition round (kind : N) (tbl : ext_table) (s : str) : option bool :=
   | _ => None
   end.
 
-(* the empty table (every external parser fails) satisfies the assumed law vacuously *)
-Lemma empty_table_stable : forall ll ids, ext_stable str table_print (table_parse []) ll ids.
-Proof. intros ll ids i x e _ _ H. discriminate. Qed.
 
 (* the DEP-3 class is necessary, and with it the full statement is false of the code as it is *)
 Theorem C20_dep3_empty_needed :
